@@ -221,8 +221,20 @@ def rule_map(c: Ctx) -> RuleResult:
                         break
                     continue
                 if cur == entry(kline):
-                    bad = (f"map end `{U(b)}` is taken while {kline} still holds its entry value (the cursor is advanced after the map is "
-                           f"written): the map would be empty or stale")
+                    # the map is written before the cursor: fine if every `return True` reachable from here leaves the cursor
+                    # at exactly the value the map end has now
+                    late_ok = vb != entry(kline)
+                    reach_ = cfg.reachable_from([n])
+                    seen_ret = False
+                    for rn in rets:
+                        if rn.id in reach_ and res.get(rn.id) is not None:
+                            seen_ret = True
+                            if VN.get(res[rn.id], kline) != vb:
+                                late_ok = False
+                    if late_ok and seen_ret:
+                        continue
+                    bad = (f"map end `{U(b)}` is taken while {kline} still holds its entry value and the cursor the rule returns with is "
+                           f"not that value on every path: the map would be empty or stale")
                     break
                 if vb != cur:
                     from ..valnum import add as _vadd
